@@ -37,7 +37,7 @@ SPEC = {
     "PERSIST": ("W", r"storage::value::ValueMetadata::clear_expiration"),
     "TTL": ("R", MAP + "get"), "PTTL": ("R", MAP + "get"),
     # C03 lists
-    "LPUSH": ("W", VEC + "push_front"), "RPUSH": ("W", VEC + "push_back"),
+    "LPUSH": ("W", VEC + "push_front"), "RPUSH": ("W", r"(" + VEC + r"(push_back|extend|append)|<std::collections::VecDeque<std::vec::Vec<u8>> as std::iter::(Extend|FromIterator)<std::vec::Vec<u8>>>::(extend|from_iter))"),
     "LPOP": ("W", VEC + "pop_front"), "RPOP": ("W", VEC + "pop_back"),
     "LLEN": ("R", VEC + "len"), "LRANGE": ("R", VEC + "(iter|get|range)"), "LINDEX": ("R", VEC + "get"),
     "LSET": ("W", r"(<std::collections::VecDeque<std::vec::Vec<u8>> as std::ops::IndexMut<usize>>::index_mut|" + VEC + "get_mut)"),
